@@ -47,6 +47,9 @@ def run_ctl(case):
             pass
 
         def value_at(self, iterate, rho, active_set=None):
+            if case.get("multi"):
+                k5 = iterate.res / 5.0
+                return np.array([3.0 * k5, 0.0, 4.0 * k5])
             return np.array([iterate.res])
 
     orig = FakeIterate(0, case["res0"], False)
@@ -122,6 +125,17 @@ class StepCtl(Unit):
                 for s_ in stream:
                     cur = cur * 0.5
                     s_["res"] = cur
+            multi = k % 8 == 4
+            if multi:
+                # residual VECTORS (3, 4) * res / 5: the 2-norm is res, the largest component 0.8 res.  Every value is
+                # 5 * 2^j so that res / 5 is exact; a residual of 1.25 newton_tol is not converged although its largest
+                # component equals the tolerance
+                prm["newton_tol"] = tol = 5.0 * tol
+                res0 = 5.0 * res0
+                for s_ in stream:
+                    s_["res"] = 5.0 * s_["res"]
+                    if r.random() < 0.3:
+                        s_["res"] = 1.25 * tol
             evalbad = [i + 1 for i in range(L) if r.random() < 0.1]
             # clock: the timer start, then one read per deadline test; the deadline may pass at some test
             tl = float("inf") if r.random() < 0.5 else float(r.randint(0, 6))
@@ -132,7 +146,8 @@ class StepCtl(Unit):
                 clock.append(t)
             cases.append({"kind": kind, "prm": prm, "lamb": lamb, "res0": res0, "pi": 2.0 ** r.randint(-2, 2), "stream": stream,
                           "evalbad": evalbad, "time_limit": tl, "clock": clock,
-                          "single": single, "iter_limit": r.choice([None, None, 1, 2, 3, 5])})   # the outer budget is not the controller's
+                          "single": single, "iter_limit": r.choice([None, None, 1, 2, 3, 5]),    # the outer budget is not the controller's
+                          "multi": multi})
         return cases
 
     def impl(self, case):
